@@ -257,7 +257,7 @@ func ReadPatchString(s string) (Diff, error) {
 			diff = append(diff, e)
 		} else {
 			i := len(diff) - 1
-			if diff[i].Path.JsonNode().Equals(e.Path.JsonNode()) {
+			if diff[i].Path.JsonNode().Equals(e.Path.JsonNode()) && !hasPatchContext(e) {
 				diff[i].Remove = append(diff[i].Remove, e.Remove...)
 				if isAppendPath(e.Path) {
 					// Successive appends stay in order
@@ -271,6 +271,23 @@ func ReadPatchString(s string) (Diff, error) {
 			}
 		}
 	}
+}
+
+// hasPatchContext tells whether the element carries context of its
+// own. Such an element starts a new hunk even if it is on the same
+// path as the previous one. Otherwise its context would be lost.
+func hasPatchContext(e DiffElement) bool {
+	for _, n := range e.Before {
+		if !isVoid(n) {
+			return true
+		}
+	}
+	for _, n := range e.After {
+		if !isVoid(n) {
+			return true
+		}
+	}
+	return false
 }
 
 // isAppendPath tells whether the path ends in the append index ("-").
